@@ -82,7 +82,7 @@ def handle (j : Json) : Except String Json := do
         | none => Json.str "ZeroDivisionError"
         | some e => Json.bool (e.x <= 0.0 || e.y <= 0.0 || e.z <= 0.0)
       let mn := npdMinors uc
-      let npd : Bool := !(mn.x > 0.0 && mn.y > 0.0 && mn.z > 0.0)
+      let npd : Bool := !((principalMinors uc).all fun x => x > 0.0)
       let scale := (ratAbs q.u11 + ratAbs q.u22 + ratAbs q.u33) / 3
       let delta : Rat := scale / 1000000000
       let d := minors q
@@ -100,6 +100,28 @@ def handle (j : Json) : Except String Json := do
       ("metric_code", ofM3 (metricCode fsqrt c)), ("recip", ofV3 rc),
       ("spec_G", ofM3 g), ("spec_V", ofFloat (fsqrt (gramDet g))), ("spec_M", ofM3 r), ("spec_recip", ofV3 nS),
       ("pts", Json.arr ptJ.toArray), ("pairs", Json.arr pairJ.toArray), ("us", Json.arr uJ.toArray)]
+  | "hist" =>
+    -- one atom under a history of edits: {"cell", "xyz", "u", "new": bool, "edits": [{"op": "uvals"|"set_uvals"|"item"|"frac", …}]}
+    let cl ← field j "cell" >>= floats
+    let c ← cellOf cl
+    let p ← field j "xyz" >>= floats >>= v3Of
+    let u ← field j "u" >>= floats >>= u6Of
+    let isNew ← boolField j "new"
+    let es ← (← arrField j "edits").mapM (fun e => do
+      match ← strField e "op" with
+      | "uvals" => return Edit.assignUvals (← field e "u" >>= floats >>= u6Of)
+      | "set_uvals" => return Edit.setUvals (← field e "u" >>= floats >>= u6Of)
+      | "item" => return Edit.setItem (← natField e "k") (← floatField e "v")
+      | "frac" => return Edit.setFrac (← field e "xyz" >>= floats >>= v3Of)
+      | o => err s!"C12: unknown edit {o}")
+    let m := orthoM fsqrt c
+    let s0 := if isNew then newAtom fsqrt c p u else parseAtom m p u
+    let s := history m s0 es
+    let so := historyOld m s0 es
+    let ofU (u : U6 Float) : Json := ofFloats [u.u11, u.u22, u.u33, u.u23, u.u13, u.u12]
+    return Json.mkObj [("frac", ofV3 s.frac), ("cart", ofV3 s.cart), ("uvals", ofU s.uvals),
+                       ("ueq_aniso", ofFloat (ueqAniso fsqrt c s.uvals)), ("cart_old", ofV3 so.cart),
+                       ("spec_frac", ofV3 (specFrac p es)), ("spec_uvals", ofU (specUvals u es))]
   | _ => err s!"C12: unknown op {op}"
 
 end Shelx.Drv.C12
